@@ -163,9 +163,15 @@ def point_arith(ctx, n):
                 f = (lambda: np.add(A, B)) if opname == "padd" else (lambda: np.subtract(A, B))
         elif opname in ("pmul", "pdiv"):
             c = float(b) if b.denominator != 1 else int(b)
+            # the scalar as a Python number, a numpy scalar or a 0-d array (what np.squeeze / np.asarray / an item of a 0-d result hand out)
+            ckind = rng.choice(["py", "py", "np", "0d"])
+            c = c if ckind == "py" else np.float64(c) if ckind == "np" else np.array(float(c))
             f = (lambda: A * c) if opname == "pmul" else (lambda: A / c)
+            if opname == "pmul" and rng.random() < 0.3 and ckind != "np":
+                f = lambda: c * A          # reflected form
             if via == "ufunc":
                 f = (lambda: np.multiply(A, c)) if opname == "pmul" else (lambda: np.true_divide(A, c))
+            opname_sig = f"{opname}:{ckind}"
         elif opname == "neg":
             f = (lambda: -A) if via == "operator" else (lambda: np.negative(A))
         else:
@@ -180,9 +186,11 @@ def point_arith(ctx, n):
         r = call_impl(f)
         exp = dec_tens(ans.split(" ")[1])
         good = r[0] == "ok" and hasattr(r[1], "array") and arr_close(exp, r[1].array, 1e-12)
+        if good and opname in ("pmul", "pdiv", "padd", "psub", "neg"):
+            good = type(r[1]) is type(A) or (type(A).__name__, type(r[1]).__name__) in (("Point", "PointCollection"), ("PointCollection", "Point"))
         if not good:
-            got = r[1:3] if r[0] != "ok" else np.asarray(getattr(r[1], "array", r[1])).tolist()
-            ctx.disagree(f"C19:arith:{opname}:{via}", desc, ans[:200], got, replay=[desc])
+            got = r[1:3] if r[0] != "ok" else (type(r[1]).__name__, np.asarray(getattr(r[1], "array", r[1])).tolist())
+            ctx.disagree(f"C19:arith:{opname_sig if opname in ('pmul', 'pdiv') else opname}:{via}", desc, ans[:200], got, replay=[desc])
 
 
 # ----------------------------------------------------------------------------------------------- indexing
